@@ -190,7 +190,7 @@ def real_tokens(cssutils, text):
     return out, ','.join('%s:%s' % (S.mtype(t[0]), enc(t[1])) for t in toks) or '-'
 
 
-def run(ctx, cssutils, quick_n=50, thorough_n=2500):
+def run(ctx, cssutils, quick_n=120, thorough_n=2500):
     rng = ctx.sub_rng('c03-canon')
     counts = {}
     cases = gen_cases(cssutils, rng, ctx.n(quick_n, thorough_n), counts)
